@@ -1,3 +1,4 @@
+import os
 subs=[("idle","stepIdle",True),("begin","stepBegin",False),("commit","stepCommit",False),("abort","stepAbort",False),("after","stepAfter",True),("use","stepUse",False),("sess","stepSess",False),("close","stepClose",False),("exp","stepExp",False)]
 pcname={"idle":".idle","after":".after"}
 head='''/-
@@ -154,4 +155,4 @@ for name,fn,haspc in subs:
          grind [Pre.app, Pre.refl]))'''
     out+=thm("hinv",name,fn,haspc,"(bnd : Bnd s) (g : Hinv s)","Hinv s'",body)
 out+="\nend Lungo.Conc\n"
-open('/root/wt/a4/lean/Lungo/Proofs/ConcLog2.lean','w').write(out)
+open(os.path.join(os.path.dirname(os.path.abspath(__file__)),'..','Lungo','Proofs')+'/ConcLog2.lean','w').write(out)
